@@ -3,10 +3,12 @@
 # Applies a seeded change to /repo, runs the named checks, and always reverts.
 patch="$1"; shift
 cd /repo || exit 9
-if ! git diff --quiet; then echo "REPO DIRTY - refusing"; exit 9; fi
-if ! git apply --3way "$patch" 2>/dev/null && ! git apply "$patch"; then echo "PATCH DOES NOT APPLY: $patch"; git checkout -- . ; git reset -q; exit 8; fi
+if ! git diff --quiet || ! git diff --cached --quiet; then echo "REPO DIRTY - refusing"; exit 9; fi
+if ! git apply "$patch" 2>/dev/null; then
+  if ! git apply --3way "$patch" 2>/dev/null; then echo "PATCH DOES NOT APPLY: $patch"; git reset -q --hard HEAD; exit 8; fi
+fi
 for p in "$@"; do
   out=$(cd /verif && ./check "$p" 2>&1); rc=$?
   echo "== $p exit=$rc"; echo "$out" | grep -A2 "^VIOLATION\|ANALYSIS-ERROR" | grep -v "^--" | head -12
 done
-git reset -q; git checkout -- . ; git status --short | head -3
+git reset -q --hard HEAD; git status --short | head -3
